@@ -145,8 +145,8 @@ def refTags : Skel := .act .superLocal <| .ifInTest (.act .mergeTest .done) (.ac
 def refTime : Skel := .act .setNow .done
 
 /-- the six outcome methods: which method of the target each one hands to `_add_result_with_semaphore`, and whether
-`self._stop_if_failfast()` follows (the unsuccessful outcomes, as in `TestResult`; a no-op while `failfast` is unset on
-the forwarder, which is C12's domain - C04 is about failfast) -/
+`self._stop_if_failfast()` follows (the unsuccessful outcomes, as in `TestResult`: with `failfast` set on the forwarder
+`Conc.runOp` then adds the critical section of `stop()`, see `C12_src_thread_steps`) -/
 def refForward : List (Kind × Kind × Bool) :=
   [(.error, .error, true), (.xfail, .xfail, false), (.failure, .failure, true), (.skip, .skip, false),
    (.success, .success, false), (.uxsuccess, .uxsuccess, true)]
